@@ -265,6 +265,12 @@ func c14decorate(r *mon.Rand, k *cose.Key, permitOps bool) string {
 		k.Params["note"] = "extra"
 		name += "extra,"
 	}
+	if r.Intn(3) == 0 {
+		// text labels and values of any well-formed UTF-8 content
+		k.Params[gen.TextValue(r)+"-label"] = gen.TextValue(r)
+		k.Params[gen.TextValue(r)] = int64(r.Intn(1000))
+		name += "extra-text,"
+	}
 	return name
 }
 
